@@ -13,12 +13,18 @@ Import ListNotations.
 Open Scope Z_scope.
 
 (* T1: for EVERY history of initialise-trial / evaluate / change-source /
-   second-derivative operations, every configuration and every payload, each
-   returned value or raised error equals that of objects without any cache. *)
+   second-derivative operations, every payload and every configuration without
+   a plain (non source-event) global-fit-parameter data field, each returned
+   value or raised error equals that of objects without any cache.  With such a
+   field (its DataField memo lives in the events array and is keyed by the
+   parameter values only) the same holds for every history that follows the
+   API protocol `wseq`: no evaluation between a source change and the next
+   initialize_trial.  (C06_plain_gfp_memo_refuted: the guard is needed.) *)
 Theorem C06_refines_full :
   forall (W : world) (C : cfg),
     (forall x y, glow W x = glow W y -> gup W x = gup W y) ->
     forall (s0 : src W) (ops : list (op W)),
+      c_ngfp C <= 0 \/ c_gfp_srcevt C = true \/ wseq W false ops = true ->
       observations W C (init W C s0) ops = srun W C (sinit W C s0) ops.
 Proof. exact refines. Qed.
 Print Assumptions C06_refines_full.
@@ -83,7 +89,8 @@ Theorem C06_key_tests_exact :
   (forall c s xc x, par_sid_matches c s && negb (par_key_differs xc x) = true <-> c = Some s /\ xc = x) /\
   (forall c s, pd_cache_invalid c s = false <-> c = Some s) /\
   (forall c s kc k, negb (i3_sid_none c) && negb (i3_sid_differs c s) && negb (i3_key_differs kc k) = true
-                    <-> c = Some s /\ kc = k).
+                    <-> c = Some s /\ kc = k) /\
+  (forall x m, gfp_value_differs x m = false <-> m = Some x).
 Proof. exact key_tests_exact. Qed.
 Print Assumptions C06_key_tests_exact.
 
@@ -114,12 +121,19 @@ Theorem C06_source_change_without_new_trial_refuted :
 Proof. exact source_change_without_new_trial_refuted. Qed.
 Print Assumptions C06_source_change_without_new_trial_refuted.
 
+Theorem C06_plain_gfp_memo_refuted :
+  exists (W : world) (C : cfg) (s0 : src W) (ops : list (op W)),
+    (forall x y, glow W x = glow W y -> gup W x = gup W y) /\
+    observations W C (init W C s0) ops <> srun W C (sinit W C s0) ops.
+Proof. exact plain_gfp_memo_refuted. Qed.
+Print Assumptions C06_plain_gfp_memo_refuted.
+
 (* non-vacuity: a concrete history in which caches are hit (empty traces),
    partially hit, invalidated by a new trial and by a source change, with
    successful outputs; the grid premise holds for that world. *)
 Example C06_nonvacuous :
   let W := wfree 100 100 100 400 in
-  let C := mkcfg 1 0 1 true false in
+  let C := mkcfg 1 0 1 true false 0 false in
   (forall x y, glow W x = glow W y -> gup W x = gup W y) /\
   map (fun r => (snd (fst r), snd r))
       (run W C (init W C 7)
@@ -132,3 +146,23 @@ Example C06_nonvacuous :
       (observations W C (init W C 7)
          [InitTrial W 1; Evaluate W 5 250; Evaluate W 6 225; NsGrad2 W 6]) = true.
 Proof. split; [exact (wfree_grid_ok 100 100 100 400) | split; vm_compute; reflexivity]. Qed.
+
+(* the DataField memo: a plain field is recalculated (TG) for a new parameter
+   value and in a new trial, re-used for the same value within a trial; a
+   source-event field is recalculated at every evaluation; every evaluation
+   changes the state id, so the id-keyed caches always miss; the protocol guard
+   of T1 is satisfiable *)
+Example C06_nonvacuous_gfp :
+  let W := wfree 100 100 100 400 in
+  let ops := [InitTrial W 1; Evaluate W 5 250; Evaluate W 6 250; Evaluate W 5 225;
+              InitTrial W 2; Evaluate W 5 225] in
+  map (fun r => (snd (fst r), snd r))
+      (run W (mkcfg 0 0 0 true false 1 false) (init W (mkcfg 0 0 0 true false 1 false) 7) ops)
+  = [([], 0); ([TG; TF 200; TP 200; TF 300; TP 300; TB], 1); ([TF 200; TP 200; TF 300; TP 300; TB], 2);
+     ([TG; TF 200; TP 200; TF 300; TP 300; TB], 3); ([], 4); ([TG; TF 200; TP 200; TF 300; TP 300; TB], 5)] /\
+  map (fun r => snd (fst r))
+      (run W (mkcfg 0 0 0 true false 1 true) (init W (mkcfg 0 0 0 true false 1 true) 7) ops)
+  = [[]; [TG; TF 200; TP 200; TF 300; TP 300; TB]; [TG; TF 200; TP 200; TF 300; TP 300; TB];
+     [TG; TF 200; TP 200; TF 300; TP 300; TB]; []; [TG; TF 200; TP 200; TF 300; TP 300; TB]] /\
+  wseq W false (ops ++ [ChangeSource W 8; InitTrial W 1; Evaluate W 5 250]) = true.
+Proof. repeat split; vm_compute; reflexivity. Qed.
